@@ -130,7 +130,57 @@ def load_config(facts_dir, config, nonce=None):
         if nonce is not None and d.get("nonce") != nonce:
             raise RuntimeError("stale fact file %s (nonce %r != %r)" % (fn, d.get("nonce"), nonce))
         crates[m.group(1)] = d
-    return Facts(config, crates)
+    F = Facts(config, crates)
+    if not os.environ.get("VERIF_NO_SPLICE"):
+        splice_helper_type_methods(F)
+    return F
+
+
+def splice_helper_type_methods(F):
+    """normalisation: private inherent methods of a *private* type (e.g. helper methods put on `ObservableStateMetadata`) are spliced
+    into the functions that call them, and dropped as functions of their own. Whether a few statements live in the method of the
+    public-facing type or in a method of the private struct it wraps is not a difference any rule should see; the roles (notify,
+    close, poll leaf ..) stay with the methods of the type the rest of the crate calls."""
+    targets = set()
+    for g in F.fns.values():
+        st = (g.raw.get("self_ty") or "").split("<")[0]
+        adt = F.adts.get(g.crate + "::" + st)
+        if g.crate != "eyeball" or not st.startswith("state::"):
+            continue   # the roles of the other crates are anchored on methods of private types themselves (projections, EntryIndex)
+        if adt is None or adt.get("vis") == "pub" or g.raw.get("impl_trait") or g.kind in ("closure", "coroutine") or g.vis in ("pub", "crate") or not g.raw.get("built"):
+            continue
+        targets.add(g.key)
+    if not targets:
+        return
+    from .inline import inline_raw
+    spliced = False
+    for caller in list(F.fns.values()):
+        if caller.key in targets or not caller.raw.get("built"):
+            continue
+        b = caller.built
+        hit = False
+        for blk in b.blocks:
+            t = blk["term"]
+            if t["k"] == "call":
+                c = F.local_callee(caller, t)
+                if c is not None and c.key in targets:
+                    hit = True
+                    break
+        if not hit:
+            continue
+        raw = inline_raw(F, caller, (lambda c: c.key not in targets), 3, frozenset(), False)
+        if raw is not None:
+            caller.raw = dict(caller.raw, built=raw)
+            caller._built = None
+            spliced = True
+    if spliced:
+        for k in targets:
+            g = F.fns.pop(k, None)
+            if g is not None and g.raw.get("parent"):
+                pk = g.crate + "::" + g.raw["parent"]
+                if pk in F.children and g in F.children[pk]:
+                    F.children[pk].remove(g)
+        F.__dict__.pop("_inline_cache", None)
 
 
 # ---------------------------------------------------------------------------
@@ -317,10 +367,73 @@ def forward_references(raw):
     return raw
 
 
+def normalise_swap(raw):
+    """`let mut old = new; mem::swap(place, &mut old);` is `let old = mem::replace(place, new);`: the swap with a local that was just
+    initialised from an operand is rewritten into the replace it stands for, so the rules see one idiom."""
+    blocks = raw["blocks"]
+    if not any(b["term"]["k"] == "call" and (b["term"].get("callee") or "") == "std::mem::swap" for b in blocks):
+        return raw
+    ndefs = defaultdict(int)
+    defs = {}
+    for bi, b in enumerate(blocks):
+        for si, s in enumerate(b["stmts"]):
+            if s["k"] == "assign" and not s["place"]["proj"]:
+                ndefs[s["place"]["l"]] += 1
+                defs[s["place"]["l"]] = (bi, si, s["rv"])
+        t = b["term"]
+        if t["k"] == "call" and not t["dest"]["proj"]:
+            ndefs[t["dest"]["l"]] += 1
+            defs[t["dest"]["l"]] = (bi, None, None)
+    argc = raw["arg_count"]
+    changed = False
+    new_blocks = [dict(b, stmts=list(b["stmts"])) for b in blocks]
+    for bi, b in enumerate(new_blocks):
+        t = b["term"]
+        if not (t["k"] == "call" and (t.get("callee") or "") == "std::mem::swap" and len(t["args"]) == 2):
+            continue
+        for ai in (1, 0):
+            a = t["args"][ai]
+            if a.get("k") not in ("move", "copy") or a["place"]["proj"]:
+                continue
+            cur = a["place"]["l"]
+            L = None
+            for _ in range(4):   # `_6 = &mut *_7; _7 = &mut _3` (two-phase reborrow)
+                d = defs.get(cur)
+                if not d or ndefs[cur] != 1 or d[2] is None or d[2]["k"] != "ref":
+                    break
+                pl = d[2]["place"]
+                if not pl["proj"]:
+                    L = pl["l"]
+                    break
+                if pl["proj"] == ["deref"]:
+                    cur = pl["l"]
+                    continue
+                break
+            if L is None:
+                continue
+            dl = defs.get(L)
+            if L <= argc or ndefs[L] != 1 or not dl or dl[2] is None or dl[2]["k"] != "use":
+                continue
+            init_op = dl[2]["op"]
+            # rewrite: L = replace(other, init_op); drop the initialisation of L
+            nb = new_blocks[dl[0]]
+            nb["stmts"][dl[1]] = {"k": "nop"}
+            b["term"] = dict(t, callee="std::mem::replace", resolved="std::mem::replace", args=[t["args"][1 - ai], init_op], dest={"l": L, "proj": []},
+                             extra=dict(t.get("extra") or {}, full="std::mem::replace"))
+            changed = True
+            break
+    if not changed:
+        return raw
+    out = dict(raw)
+    out["blocks"] = new_blocks
+    return out
+
+
 class Body:
     def __init__(self, fn, raw, phase):
         self.fn = fn
         if os.environ.get("VERIF_NO_FORWARD") != "1":
+            raw = normalise_swap(raw)
             raw = forward_references(raw)
         self.raw = raw
         self.phase = phase
